@@ -14,7 +14,7 @@ typedef struct TcpEngine {
   TransportConfig _config; AtomicStats _atomicStats; int _epollFd, _eventFd, _timerFd;
   iora_mutex _cbMutex, _sessionRwMutex, _cmdMutex; Callbacks _cbs;
   iora_smapN _sessions; iora_lmapN _listeners; iora_tmapN _fdTags; iora_cmdq _cmds; bool _cmdsClosed;
-  SessionId _nextSessionId; TimerService *_timerService; void *_sslCli, *_sslSrv;      /* SSL_CTX* of the client side */
+  bool _running; SessionId _nextSessionId; TimerService *_timerService; void *_sslCli, *_sslSrv;      /* SSL_CTX* of the client side */
 } TcpEngine;
 
 /* ---- witnesses: one arbitrary session id and one arbitrary fd; the stubs count the events that concern them ---- */
@@ -99,6 +99,13 @@ static inline void TcpEngine_freeTls(TcpEngine *self) { (void)self; }
 unsigned G_promise_sets;
 static inline void iora_promise_set(iora_promise *p, bool v) { IORA_ASSERT(!v && p->set_calls == 0, "SD-E a pending listener promise is failed (set_value(false)), once"); if (p->set_calls < 1000) p->set_calls++; p->value = v; if (G_promise_sets < 0x7fffffffu) G_promise_sets++; }
 
+/* ---- (c) id allocator: writes other than the post-increment (start() prologue) ---- */
+static inline bool iora_cas_bool(bool *x, bool *expected, bool desired) { if (*x == *expected) { *x = desired; return 1; } *expected = *x; return 0; }
+unsigned G_id_store_calls;
+static inline void iora_id_store(SessionId *a, SessionId v)
+{ IORA_ASSERT(v >= *a, "ID3 a write to the session-id allocator other than the post-increment never moves it backwards: new >= old (every id issued so far stays < _nextSessionId, so no id is handed out twice - also across stop() + start())");
+  if (G_id_store_calls < 1000) G_id_store_calls++; *a = v; }
+static inline bool TcpEngine_initTls(TcpEngine *self) { (void)self; return nondet_bool(); }
 /* ---- (b) doConnect blocks ---- */
 typedef struct { SessionId sid; int host; uint16_t port; TlsMode tls; } ConnectReq;     /* host name: opaque */
 typedef struct iora_addrinfo addrinfo;
